@@ -123,6 +123,8 @@ def finish(res, tier, seed, t0, level='other', technique='', extra=None, checker
     ev = dict(property_id=res.pid, tier=tier, seed=seed, level=level, coverage=cov,
               assumptions=res.assumptions, wall_s=round(time.time() - t0, 3), violations=len(new),
               known_findings=[dict(rule=o['rule'], key=o['key'], what=k.get('what', '')) for o, k in matched], notes=res.notes)
+    if os.environ.get('VERIF_NO_EVIDENCE'):
+        return 1 if new else 0
     tmp = os.path.join(VERIF, 'evidence', res.pid + '.json.tmp')
     json.dump(ev, open(tmp, 'w'), indent=1, sort_keys=True)
     os.replace(tmp, os.path.join(VERIF, 'evidence', res.pid + '.json'))
